@@ -32,16 +32,16 @@ theorem dependentsOf_eq_clos (g : Graph) (n : Nat) : ∀ fuel fi,
   | succ k ih => intro fi; simp only [dependentsOf, clos, ih, directDependents]
 
 /-- reachable in one or more steps -/
-inductive Reach (next : Nat → List Nat) : Nat → Nat → Prop
-  | step {x y : Nat} : y ∈ next x → Reach next x y
-  | trans {x y z : Nat} : y ∈ next x → Reach next y z → Reach next x z
+inductive ReachN (next : Nat → List Nat) : Nat → Nat → Prop
+  | step {x y : Nat} : y ∈ next x → ReachN next x y
+  | trans {x y z : Nat} : y ∈ next x → ReachN next y z → ReachN next x z
 
-theorem Reach.tail {next : Nat → List Nat} {x y z : Nat} (h : Reach next x y) (hz : z ∈ next y) : Reach next x z := by
+theorem ReachN.tail {next : Nat → List Nat} {x y z : Nat} (h : ReachN next x y) (hz : z ∈ next y) : ReachN next x z := by
   induction h with
   | step h1 => exact .trans h1 (.step hz)
   | trans h1 _ ih => exact .trans h1 (ih hz)
 
-theorem clos_sound (next : Nat → List Nat) : ∀ fuel x z, z ∈ clos next fuel x → Reach next x z := by
+theorem clos_sound (next : Nat → List Nat) : ∀ fuel x z, z ∈ clos next fuel x → ReachN next x z := by
   intro fuel
   induction fuel with
   | zero => intro x z h; simp [clos] at h
@@ -54,7 +54,7 @@ theorem clos_sound (next : Nat → List Nat) : ∀ fuel x z, z ∈ clos next fue
     · exact .trans hd (ih d z hz)
 
 theorem clos_complete (next : Nat → List Nat) (μ : Nat → Nat) (hμ : ∀ x, ∀ y ∈ next x, μ y < μ x) :
-    ∀ x z, Reach next x z → ∀ fuel, μ x ≤ fuel → z ∈ clos next fuel x := by
+    ∀ x z, ReachN next x z → ∀ fuel, μ x ≤ fuel → z ∈ clos next fuel x := by
   intro x z h
   induction h with
   | @step x y h1 =>
@@ -102,8 +102,8 @@ theorem mem_sortNat {a : Nat} {l : List Nat} : a ∈ sortNat l ↔ a ∈ l := by
   simp [sortNat]
 
 /-- reversing the edges reverses reachability -/
-theorem Reach.reverse {next prev : Nat → List Nat} (h : ∀ x y, y ∈ next x → x ∈ prev y) {x z : Nat}
-    (r : Reach next x z) : Reach prev z x := by
+theorem ReachN.reverse {next prev : Nat → List Nat} (h : ∀ x y, y ∈ next x → x ∈ prev y) {x z : Nat}
+    (r : ReachN next x z) : ReachN prev z x := by
   induction r with
   | step h1 => exact .step (h _ _ h1)
   | trans h1 _ ih => exact ih.tail (h _ _ h1)
